@@ -41,6 +41,13 @@ def prats(s):
     return [prat(t) for t in s.split()]
 
 
+C17 = ["running_average", "butter_book", "butter_pad", "filter_select", "butter_full", "remove_poly_with", "remove_average",
+       "add_constant", "add_series", "add_signal"]
+C18 = ["section_average", "section_average_idx", "time_indices", "same_start", "time_match", "combine", "rotated_degrees"]
+C03 = ["pseudo", "true", "gen_input", "uke", "input_energy", "input_energy_series", "asi", "vsi"]
+PREFIX = {**{n: "c17." for n in C17}, **{n: "c18." for n in C18}, **{n: "c03." for n in C03}}
+
+
 class Batch:
     def __init__(self):
         self.reqs = []   # (request line, checker(resp_fields) -> None or message, description)
@@ -49,7 +56,7 @@ class Batch:
         self.reqs.append((line, checker, desc or line))
 
     def run(self, name):
-        inp = "\n".join(r[0] for r in self.reqs) + "\n"
+        inp = "\n".join(PREFIX[r[0].split("|")[0]] + r[0] for r in self.reqs) + "\n"
         p = subprocess.run(["lake", "env", "lean", "--run", "Scratch.lean"], cwd=LEAN_DIR, input=inp,
                            capture_output=True, text=True)
         lines = [l for l in p.stdout.split("\n") if l and not l.startswith("WARNING")]
